@@ -125,7 +125,14 @@ def correspond(ctx):
             slide = rng.choice(slides)
             how = rng.choice(["stream", "path", "path-misleading", "placeholder", "poster", "ole-icon"])
             if how == "stream":
+                # a third of the streams have been used before (the caller's own read, an earlier add_picture with the
+                # same object): the cursor is at the end, or somewhere in the middle
                 src = io.BytesIO(blob)
+                x = rng.random()
+                if x < 0.2:
+                    src.read(); ctx.count("stream-cursor-at-end")
+                elif x < 0.33:
+                    src.seek(min(7, len(blob))); ctx.count("stream-cursor-in-the-middle")
             else:
                 name = rng.choice(["pic", "IMG", "photo.final", "x"]) + rng.choice(["." + EXT[fmt], ".jpg", ".PNG", ".dat", ""])
                 p = tmp / name
